@@ -277,14 +277,14 @@ pub fn check_unit_pairs(rep: &mut Rep) {
 pub fn run(cfg: &Cfg, rep: &mut Rep) {
     let lat = gen::dur_lattice();
     let flat = factor_lattice();
-    if rep.shard == 0 {
+    if rep.shard == 0 && !cfg.fuzz {
         check_unit_pairs(rep);
     }
     let sh = rep.shard as usize;
     let n = NSHARDS as usize;
     // exhaustive lattice part
     for (i, &x) in lat.iter().enumerate() {
-        if i % n != sh {
+        if i % n != sh || cfg.fuzz {
             continue;
         }
         let a = mk(x);
@@ -300,6 +300,7 @@ pub fn run(cfg: &Cfg, rep: &mut Rep) {
     let mut r = Rng::new(cfg.seed, 0x0100 + sh as u64);
     let nrand = cfg.budget(6_000_000);
     for i in 0..nrand {
+        let i = cfg.k(i, &mut r);
         // operands through the raw constructor in 1 of 4 cases, otherwise canonical parts of a random count
         let a = if i % 4 == 0 {
             let (c, ns) = gen::rand_raw_parts(&mut r);
